@@ -73,7 +73,7 @@ def _task(X):
             if e.kind == 'raise' and not e.data.get('implicit'):
                 out['raise_sites'].add((e.fn, norm(e.node)[:70], exc_name(e.data['exc'])))
             if e.kind == 'caught':
-                out['caught'].add((e.fn, exc_name(e.data['exc'])))
+                out['caught'].add((e.fn, exc_name(e.data['exc']), str(getattr(e.data['raise'], 'note', '') or ('raised in %s' % getattr(e.data['raise'], 'origin_fn', None)))[:80]))
         if not yields:
             continue
         out['yield_paths'] += 1
@@ -98,15 +98,18 @@ def _task(X):
                     if kk.in_sets or kk.neq or kk.has_const or kk.notin_sets:
                         out['key_compared'].add(norm(s_.node)[:60])
         # reads of the options dict after the header function returned
+        def after_header(e_):
+            # an event of the section-interpreting code: not inside the header parser (which fills the mapping)
+            return R.header_fn not in e_.stack
         for e in evs:
-            if e.fi is R.entry and e.kind == 'dict-get' and e.data['dict'] is opts:
+            if after_header(e) and e.kind == 'dict-get' and e.data['dict'] is opts:
                 k = e.data['key']
                 out['dict_reads'].add(concrete(k) if is_concrete(k) else '<unknown key>')
-            if e.fi is R.entry and e.kind == 'dict-truth' and e.data['dict'] is opts:
+            if after_header(e) and e.kind == 'dict-truth' and e.data['dict'] is opts:
                 out['dict_other'].add('truth test at %s' % e.loc)
-            if e.fi is R.entry and e.kind == 'loop' and e.data.get('of') is opts:
+            if after_header(e) and e.kind == 'loop' and e.data.get('of') is opts:
                 out['dict_other'].add('iteration at %s' % e.loc)
-            if e.fi is R.entry and e.kind == 'mayraise' and e.data['why'].startswith('key ') and e.data['operands'] and e.data['operands'][0] is opts:
+            if after_header(e) and e.kind == 'mayraise' and e.data['why'].startswith('key ') and e.data['operands'] and e.data['operands'][0] is opts:
                 out['dict_reads'].add(e.data['why'].split("'")[1] if "'" in e.data['why'] else '?')
         if X == 'diffx':
             v = opts.items.get('version') if opts is not None else None
@@ -194,9 +197,6 @@ def _task(X):
                                 ok = True
                     out['newline_checked'].add(ok)
         if X.endswith('meta'):
-            for e in evs:
-                if e.fi is R.entry and e.kind == 'dict-get' and is_concrete(e.data['key']) and concrete(e.data['key']) == 'format':
-                    pass
             fmt = opts.items.get('format') if opts is not None else None
             if fmt is None:
                 out['format'].add('absent')
